@@ -204,6 +204,9 @@ func GenDef(r *rand.Rand, p *Profile) Cfg {
 		case "sslice", "islice", "fslice", "smap":
 			o.Min = 1 + r.Intn(3)
 			o.Max = o.Min + r.Intn(3)
+			if chance(r, 0.05) {
+				o.Max = Unlimited
+			}
 		}
 		if chance(r, p.Req) {
 			o.Req = true
@@ -352,7 +355,7 @@ func genValue(r *rand.Rand, p *Profile) string {
 	case 3, 4, 5:
 		return pick(r, numPool)
 	case 6:
-		return pick(r, []string{"k=v", "k=v=w", "K=x", "a=", "=b", "é=ü", ":8080", "::1", "=", ":", "=:x"})
+		return pick(r, []string{"k=v", "k=v=w", "K=x", "a=", "=b", "é=ü", ":8080", "::1", "=", ":", "=:x", "-=x", "-="})
 	default:
 		if p.Wild {
 			return pick(r, wildPool)
